@@ -18,8 +18,10 @@ mod c11;
 mod c12;
 mod c13;
 mod c14;
+mod c15;
 mod c16;
 mod c17;
+mod c18;
 mod c19;
 mod cli;
 mod driver;
@@ -61,8 +63,10 @@ fn property(id: &str) -> Option<Box<dyn Property>> {
         "C12" => Box::new(c12::C12::new()),
         "C13" => Box::new(c13::C13::new()),
         "C14" => Box::new(c14::C14::new()),
+        "C15" => Box::new(c15::C15::new()),
         "C16" => Box::new(c16::C16::new()),
         "C17" => Box::new(c17::C17::new()),
+        "C18" => Box::new(c18::C18::new()),
         "C19" => Box::new(c19::C19::new()),
         _ => return None,
     })
